@@ -249,6 +249,12 @@ def build_doc(d, opts=None):
             cfg["width"], cfg["height"] = max(num(d, 100, 800), 1.0), max(num(d, 100, 800), 1.0)
         elif kk == 1:
             cfg["width"], cfg["height"] = "%sin" % fmtn(max(num(d, 1, 8), 1.0)), "%spt" % fmtn(max(num(d, 100, 600), 1.0))
+        elif kk == 2 and "viewBox" in a:
+            # the caller supplies one dimension only: the other one comes from the viewBox
+            if d.bool():
+                cfg["width"] = max(num(d, 100, 800), 1.0) if d.bool() else "%sin" % fmtn(max(num(d, 1, 8), 1.0))
+            else:
+                cfg["height"] = max(num(d, 100, 800), 1.0) if d.bool() else "%spt" % fmtn(max(num(d, 100, 600), 1.0))
         if d.chance(1, 6):
             cfg["transform"] = d.choice(TRANSFORMS[:10])
     children = []
@@ -268,7 +274,7 @@ def build_doc(d, opts=None):
     root["children"] = children
     # the size percentages resolve against must be defined by the document or the caller, not by a library default
     pct_size = "%" in a.get("width", "") or "%" in a.get("height", "")
-    if cfg["width"] is None and (pct_size or ("viewBox" not in a and "width" not in a)):
+    if cfg["width"] is None and cfg["height"] is None and (pct_size or ("viewBox" not in a and "width" not in a)):
         cfg["width"], cfg["height"] = max(num(d, 100, 800), 1.0), max(num(d, 100, 800), 1.0)
     resolve_uses(root, b.ids)
     return {"root": root, "css": [], "config": cfg}
